@@ -17,7 +17,7 @@ use regex_syntax::hir::{Class, Hir, HirKind, Look};
 
 use crate::graph::{Graph, GraphError};
 use crate::leaf::{Leaf, VariantKind};
-use crate::parser::nested_debug;
+use crate::parser::{canonical_tokens, nested_debug};
 
 thread_local! {
     static CURRENT: RefCell<String> = const { RefCell::new(String::new()) };
@@ -324,6 +324,11 @@ pub(crate) fn finish(messages: &[String]) {
 /// Run the attribute tokenizer (`parser/nested.rs`) over a token stream and print the items.
 pub fn attr_items(stream: TokenStream) -> Vec<String> {
     nested_debug(stream)
+}
+
+/// Canonical rendering of a token stream (the input side of `attr_items`).
+pub fn tokens_canonical(stream: TokenStream) -> String {
+    canonical_tokens(stream)
 }
 
 /// `Literal::escape` on a string / byte-string literal token stream.
